@@ -326,9 +326,51 @@ def reproduces_alone(case, i, key):
 
 # ---- files ---------------------------------------------------------------------------------
 
+def big_file(spec):
+    """
+    A large program file from a compact description (the case stays small):
+    {'fmt': 'T'|'P'|'A', 'size': target bytes, 'body': latin1 line body (tokenised bytes for T/P,
+     text for A), 'first': first line number, 'step': line number step, 'tail': latin1 raw bytes
+     appended (soup / cut-off), 'wellformed': bool (terminating 00 00 1A present)}
+    """
+    fmt = spec.get('fmt', 'T')
+    body = spec.get('body', '\x8f x').encode('latin-1')
+    size = int(spec.get('size', 66000))
+    num, step = int(spec.get('first', 10)), max(1, int(spec.get('step', 1)))
+    tail = spec.get('tail', '').encode('latin-1')
+    chunks = []
+    total = 1
+    if fmt == 'A':
+        while total < size:
+            ln = b'%d ' % (num % 65530) + body + b'\r\n'
+            chunks.append(ln)
+            total += len(ln)
+            num += step
+        data = b''.join(chunks) + tail + (b'\x1a' if spec.get('wellformed', True) else b'')
+        return data
+    addr = 4717
+    while total < size:
+        addr = (addr + len(body) + 5) & 0xffff
+        ln = bytes([addr & 0xff or 1, (addr >> 8) or 1]) + bytes([num & 0xff, (num >> 8) & 0xff]) \
+            + body + b'\0'
+        chunks.append(ln)
+        total += len(ln)
+        num = (num + step) % 65530
+    plain = b''.join(chunks) + tail + (b'\0\0\x1a' if spec.get('wellformed', True) else b'')
+    if fmt == 'T':
+        return b'\xff' + plain
+    # protected: encrypt with the interpreter's own cipher (input construction only)
+    from pcbasic.basic.converter import protect as _protect
+    out = io.BytesIO()
+    _protect(io.BytesIO(plain), out)
+    return b'\xfe' + out.getvalue() + b'\x1a'
+
+
 def make_file(case, sb):
     """bytes of the file to load: given data, or a valid saved file with mutations applied."""
-    if case.get('data') is not None:
+    if case.get('big'):
+        data = big_file(case['big'])
+    elif case.get('data') is not None:
         data = case['data'].encode('latin-1')
     else:
         fmt = case.get('fmt', 'T')
@@ -397,6 +439,8 @@ def run_file(case, res):
                 if o.kind == 'exit':
                     break
         res.nt(loaded)
+        for tag in case.get('tags') or ():
+            res.label('hist:' + tag)
         closed = s.close()
         s = None
         if closed is not None and not is_alarm(closed):
@@ -820,6 +864,207 @@ def strat_history_deep():
     return seeded(lambda rng: gen_history(rng, deep=True))
 
 
+# ---- machine ports and memory in every screen mode -----------------------------------------------
+
+SPECIAL_PORTS = [0x60, 0x61, 0x62, 0x64, 0x201, 0x278, 0x279, 0x27a, 0x2f8, 0x2f9, 0x2fa, 0x2fb, 0x2fc, 0x2fd,
+                 0x2fe, 0x2ff, 0x378, 0x379, 0x37a, 0x3b4, 0x3b5, 0x3b8, 0x3ba, 0x3bf, 0x3c0, 0x3c2, 0x3c4, 0x3c5,
+                 0x3c7, 0x3c8, 0x3c9, 0x3ce, 0x3cf, 0x3d4, 0x3d5, 0x3d8, 0x3d9, 0x3da, 0x3de, 0x3df, 0x3f8, 0x3f9,
+                 0x3fa, 0x3fb, 0x3fc, 0x3fd, 0x3fe, 0x3ff, 0x40, 0x42, 0x43, 0x20, 0x21, 0xc0, 0x3f2]
+PORT_VALUES = [0, 1, 2, 3, 4, 7, 8, 15, 16, 0x1a, 0x1e, 0x20, 0x40, 0x80, 0xc0, 254, 255, 256, -1, 32767, 65535]
+SEGMENTS = ['&HB800', '&HB000', '&HA000', '&HA800', '&HC000', '&HF000', '&HFFFF', '0', '&H40', '&H13AD', '&H9FFF',
+            '&HB7FF', '&HBFFF', '&HEFFF', '']
+OFFSETS = [0, 1, 2, 3, 79, 80, 159, 160, 3999, 4000, 4095, 4096, 8191, 8192, 16383, 16384, 32767, 32768, 65535,
+           -1, -32768, 65536, 0x410, 0x417, 0x41a, 0x41c, 0x41e, 0x43e, 0x449, 0x44a, 0x44c, 0x44e, 0x450, 0x460,
+           0x462, 0x463, 0x465, 0x466, 0x484, 0x485, 0x500, 0x50f, 0x510, 0xfa6e, 0xfa6f, 0xe00e, 0xe05e, 0xfffe,
+           0x2c, 0x2e, 0x30, 0x358, 0x35c, 1124, 1125, 4717, 4073]
+SCREENS = ['SCREEN 0', 'SCREEN 0:WIDTH 40', 'SCREEN 0:WIDTH 80', 'SCREEN 1', 'SCREEN 2', 'SCREEN 3', 'SCREEN 4',
+           'SCREEN 5', 'SCREEN 6', 'SCREEN 7', 'SCREEN 8', 'SCREEN 9', 'SCREEN 10', 'SCREEN 0,1', 'SCREEN 1,1',
+           'SCREEN 0,0,1,1', 'SCREEN 7,,1,0', 'SCREEN 9,,1,1', 'SCREEN 100', 'SCREEN 3,,2,2', 'WIDTH 40', 'WIDTH 80',
+           'SCREEN 2:WIDTH 40', 'SCREEN 1:WIDTH 80', 'KEY OFF', 'KEY ON', 'CLS']
+
+
+def gen_machine(rng, deep=False):
+    """OUT/INP/WAIT, DEF SEG + PEEK/POKE, BLOAD/BSAVE on special and neighbouring addresses, in
+    every adapter and every screen mode (text and graphics) the session can select."""
+    cfg = {'video': rng.choice(VIDEOS), 'syntax': rng.choice(SYNTAXES)}
+    if rng.random() < 0.2:
+        cfg['monitor'] = rng.choice(['mono', 'composite', 'rgb'])
+    if rng.random() < 0.15:
+        cfg['allow_code_poke'] = True
+
+    def port():
+        r = rng.random()
+        if r < 0.7:
+            return rng.choice(SPECIAL_PORTS) + rng.choice([0, 0, 0, 1, -1])
+        if r < 0.9:
+            return rng.randrange(65536)
+        return rng.choice([-1, 65536, -32768, -32769, 70000])
+
+    def off():
+        return rng.choice(OFFSETS) if rng.random() < 0.8 else rng.randrange(65536)
+    steps = [{'m': 'x', 't': 'DIM G%(300)'}]
+    for _ in range(rng.randint(6, 24 if deep else 12)):
+        r = rng.randrange(14)
+        if r == 0:
+            t = rng.choice(SCREENS)
+        elif r in (1, 2, 3):
+            t = 'OUT %d,%d' % (port(), rng.choice(PORT_VALUES))
+            if rng.random() < 0.4:
+                t += ':OUT %d,%d' % (port(), rng.choice(PORT_VALUES))
+        elif r == 4:
+            t = 'A=INP(%d):PRINT A;' % port()
+        elif r == 5:
+            t = 'WAIT %d,%d,%d' % (port(), rng.choice(PORT_VALUES), rng.choice(PORT_VALUES))
+        elif r == 6:
+            t = 'DEF SEG' + ('=' + rng.choice(SEGMENTS[:-1]) if rng.random() < 0.85 else '')
+        elif r in (7, 8):
+            t = 'POKE %d,%d' % (off(), rng.choice(PORT_VALUES))
+        elif r == 9:
+            t = 'A=PEEK(%d):PRINT A;' % off()
+        elif r == 10:
+            t = 'BSAVE "M.BIN",%d,%d' % (off(), rng.choice([0, 1, 2, 80, 4000, 16384, 32768, 65535, 65536, -1]))
+        elif r == 11:
+            t = 'BLOAD "M.BIN"' + (',%d' % off() if rng.random() < 0.7 else '')
+        elif r == 12:
+            t = rng.choice(['PSET(3,3),1', 'PRINT "x";', 'LOCATE 1,1:PRINT CHR$(219);', 'COLOR 1,2', 'PCOPY 0,1',
+                            'PALETTE 1,2', 'GET(0,0)-(7,7),G%', 'PUT(1,1),G%', 'LINE(0,0)-(20,20),1,BF', 'CLS',
+                            'VIEW PRINT 2 TO 10', 'A=POINT(1,1)', 'A=SCREEN(1,1)', 'DEF SEG=&HB800:BSAVE "V.BIN",0,4000',
+                            'DEF SEG=&HB800:BLOAD "V.BIN"', 'DEF SEG=&HA000:BLOAD "V.BIN",0', 'BLOAD "V.BIN",65000'])
+        else:
+            t = 'DEF SEG=%s:POKE %d,%d:A=PEEK(%d)' % (rng.choice(SEGMENTS[:-1]), off(), rng.choice(PORT_VALUES), off())
+        steps.append({'m': 'x', 't': t})
+    return {'u': 'lines', 'cfg': cfg, 'steps': steps, 'tags': ['machine']}
+
+
+# ---- DRAW / PLAY macro strings with variable references -----------------------------------------
+
+MACRO_SETUP = ['A=3:B!=2.5:C#=4:I%=2:S$="U3":N$="12":E$="":M$="C":H=1E30:NEG=-5:W$="L4"',
+               'DIM R(5),R%(5),Q$(3),D#(2),T(2,2)', 'R(1)=2:R(2)=40000:R%(1)=3:R%(2)=-1:Q$(1)="L2":Q$(2)="X":D#(1)=1.5']
+MACRO_REFS = ['A', 'B!', 'C#', 'I%', 'S$', 'N$', 'E$', 'W$', 'H', 'NEG', 'ZZ', 'ZZ$', 'R(1)', 'R(2)', 'R%(1)', 'R%(I%)', 'R(A)',
+              'R(S$)', 'R(N$)', 'R(R(1))', 'R(R%(1))', 'Q$(1)', 'Q$(2)', 'Q$(I%)', 'Q$(S$)', 'D#(1)', 'T(1,1)', 'T(1)',
+              'T(1,S$)', 'R(', 'R(1', 'R()', 'R(1))', 'R(99)', 'R(-1)', 'R(1.5)', 'R(1E30)', 'UNDEF(1)', 'UNDEF$(1)',
+              'R(1,2)', 'R (1)', 'R(1 )', ' A', 'A ', 'R(Q$(1))', 'R(A(1))', 'R(R(R(R(1))))', '1', '', '=', ';', 'A%', 'A$',
+              'R$(1)', 'R!(1)', 'FNA', 'FNA(1)', 'ERR', 'TIMER', 'A+1', '-A', 'R(I%+1)', 'R(&H1)']
+VARPTR_ARGS = ['A', 'B!', 'C#', 'I%', 'S$', 'N$', 'E$', 'R(1)', 'R%(1)', 'Q$(1)', 'D#(1)', 'ZZ', 'ZZ$']
+DRAW_CMDS = ['U', 'D', 'L', 'R', 'E', 'F', 'G', 'H', 'M', 'M+', 'BM', 'NU', 'A', 'TA', 'C', 'S', 'P', 'P1,', 'M1,', 'BM+1,']
+PLAY_CMDS = ['C', 'A', 'G#', 'O', 'L', 'T', 'N', 'P', 'V', 'MB', 'MF', 'ML', '>', 'C2.']
+
+
+def macro_string(rng, cmds):
+    """-> BASIC string expression: quoted pieces and VARPTR$() calls joined by '+'."""
+    parts = []
+    lit = ''
+
+    def flush():
+        nonlocal lit
+        if lit:
+            parts.append('"%s"' % lit)
+            lit = ''
+    for _ in range(rng.randint(1, 4)):
+        cmd = rng.choice(cmds)
+        r = rng.randrange(10)
+        if r < 4:
+            lit += cmd + '=' + rng.choice(MACRO_REFS) + rng.choice([';', ';', ';', '', ',', ' ;'])
+        elif r < 6:
+            lit += 'X' + rng.choice(MACRO_REFS) + rng.choice([';', ';', ''])
+        elif r < 8:
+            lit += cmd + rng.choice(['=', 'X'] if r == 6 else ['='])
+            flush()
+            v = 'VARPTR$(%s)' % rng.choice(VARPTR_ARGS)
+            parts.append(rng.choice([v, v, v, 'LEFT$(%s,2)' % v, 'LEFT$(%s,1)' % v, v + '+' + v,
+                                     'CHR$(%d)+MID$(%s,2)' % (rng.choice([0, 1, 2, 3, 4, 5, 8, 9, 255]), v),
+                                     'CHR$(2)+CHR$(255)+CHR$(255)', 'CHR$(3)+MKI$(0)', 'CHR$(3)+MKI$(-1)']))
+            lit += rng.choice([';', ';', ''])
+        else:
+            lit += cmd + rng.choice(['1', '10', '', '-1', '99999', '1,1', '+1,-1', '=', '=;', '1E5', '&H10', '.', '255', '0'])
+    flush()
+    return '+'.join(parts) if parts else '""'
+
+
+def gen_macro(rng, deep=False):
+    cfg = {}
+    if rng.random() < 0.3:
+        cfg = {'video': rng.choice(VIDEOS), 'syntax': rng.choice(SYNTAXES)}
+    steps = [{'m': 'x', 't': t} for t in MACRO_SETUP]
+    steps.append({'m': 'x', 't': rng.choice(['SCREEN 1', 'SCREEN 1', 'SCREEN 2', 'SCREEN 0', 'SCREEN 9', 'SCREEN 7'])})
+    if rng.random() < 0.3:
+        steps.append({'m': 'x', 't': 'DEF FNA(X)=X:OPTION BASE 1'})
+    for _ in range(rng.randint(3, 16 if deep else 8)):
+        if rng.random() < 0.55:
+            t = 'DRAW ' + macro_string(rng, DRAW_CMDS)
+        else:
+            t = 'PLAY "MB"+' + macro_string(rng, PLAY_CMDS)
+            if rng.random() < 0.2:
+                t += ',' + macro_string(rng, PLAY_CMDS)
+        if rng.random() < 0.15:
+            # W$ may be redefined, but never so that it executes itself: PLAY "XW$;" with W$="XW$;"
+            # loops forever inside sound.play_ (a hang, not an escape)
+            t = rng.choice(['W$=%s' % macro_string(rng, DRAW_CMDS).replace('W$', 'S$'), 'ERASE R', 'A=1E30',
+                            'I%=-1', 'Q$(1)=VARPTR$(A)', 'CLEAR', 'N$=VARPTR$(N$)',
+                            'FOR I=1 TO 30:X$=X$+"a":NEXT:PRINT FRE("")'])
+        steps.append({'m': 'x', 't': t[:250]})
+    return {'u': 'lines', 'cfg': cfg, 'steps': steps, 'tags': ['macro']}
+
+
+# ---- program files around and above the memory limits -------------------------------------------
+
+BIG_BODIES_T = ['\x8f x', '\x91 \x11', '\x91 "' + 'a' * 60 + '"', '\x8f' + 'r' * 240, 'A\xe7\x12', '\x89 \x0e\x0a\x00',
+                '\x8d \x0e\xff\xff', '\x84 1,2,3', ':', '\xa7 \x8c \x89 \x0e\x10\x27', '\x1f\x00\x00\x00',
+                '\xff\xff\xff', '\x82 I\xe7\x12 \xcc \x0f\x05:\x83']
+BIG_BODIES_A = ['REM x', 'PRINT 1', 'PRINT "' + 'a' * 60 + '"', "'" + 'r' * 240, 'A=1', 'GOTO 10', 'GOSUB 65529', 'DATA 1,2,3',
+                ':', 'ON ERROR GOTO 10000', 'FOR I=1 TO 5:NEXT', 'x' * 254, 'PRINT' + ' ' * 200 + '1']
+BIG_SIZES = [1000, 7000, 8100, 30000, 55000, 59000, 60000, 60200, 60290, 60300, 60310, 60400, 61000, 64000, 65000, 65500,
+             65530, 65535, 65536, 65537, 65600, 66000, 70000, 100000, 131072, 140000]
+BIG_HOW = [['LOAD "P.BAS"'], ['RUN "P.BAS"'], ['MERGE "P.BAS"'], ['LOAD "P.BAS",R'], ['10 CHAIN "P.BAS"', 'RUN'],
+           ['5 PRINT 5', 'CHAIN MERGE "P.BAS",5'], ['5 A=1:COMMON A', 'CHAIN "P.BAS",,ALL'], ['5 REM', 'MERGE "P.BAS"']]
+BIG_AFTER = ['PRINT FRE(0)', 'LIST 10-12', 'LIST -11', 'RUN', 'SAVE "O.BAS"', 'SAVE "O.BAS",A', 'SAVE "O.BAS",P', 'NEW', 'DELETE 10-40',
+             'DELETE 11-', '65000 REM last', '1 REM first', '10 ' + 'x' * 200, 'RENUM', 'EDIT 10', 'CLEAR ,9000', 'CONT', 'A$=STRING$(200,65)',
+             'DIM Z(2000)', 'LOAD "O.BAS"', 'MERGE "P.BAS"', 'PRINT PEEK(&H30)+256*PEEK(&H31)', 'CLEAR ,,2000']
+
+
+def gen_bigfile(rng, deep=False):
+    fmt = rng.choice('TTPA')
+    small = rng.random() < 0.35
+    size = rng.choice([1000, 5000, 7000, 7900, 8000, 8100, 8200, 9000, 12000]) if small else rng.choice(BIG_SIZES)
+    if fmt == 'A' and size > 70000:
+        size = 70000
+    bodies = BIG_BODIES_A if fmt == 'A' else BIG_BODIES_T
+    if size > 20000:
+        # thousands of short lines make LOAD/MERGE/RENUM quadratic: long lines for the big files
+        bodies = [b for b in bodies if len(b) >= 40] if (fmt == 'A' or rng.random() < 0.7) else bodies
+    spec = {'fmt': fmt, 'size': size + rng.choice([0, 0, 1, -1, 3, -7]),
+            'body': rng.choice(bodies),
+            'first': rng.choice([10, 10, 1, 0, 60000]), 'step': rng.choice([1, 1, 10, 9]),
+            'wellformed': rng.random() < 0.8}
+    if rng.random() < 0.2:
+        spec['tail'] = ''.join(chr(rng.choice(SPECIAL_BYTES)) for _ in range(rng.randrange(8)))
+    how = []
+    cfg = {}
+    if small:
+        if rng.random() < 0.5:
+            cfg['max_memory'] = 8192
+        else:
+            how.append('CLEAR ,%d' % rng.choice([8000, 8192, 9000, 6000, 5000]))
+    if rng.random() < 0.2:
+        cfg['syntax'] = rng.choice(SYNTAXES)
+    how += rng.choice(BIG_HOW)
+    for _ in range(rng.randint(1, 6 if deep else 3)):
+        how.append(rng.choice(BIG_AFTER))
+    return {'u': 'file', 'cfg': cfg, 'name': 'P.BAS', 'big': spec, 'how': how, 'tags': ['bigfile']}
+
+
+def strat_machine():
+    return seeded(gen_machine)
+
+
+def strat_macro():
+    return seeded(gen_macro)
+
+
+def strat_bigfile():
+    return seeded(gen_bigfile)
+
+
 # ---- corpus --------------------------------------------------------------------------------
 
 _CORPUS = {}
@@ -1002,15 +1247,24 @@ def units(tier):
     return [
         Unit('grammar', 'hyp', shards=4 if q else 16, examples={'quick': 520, 'thorough': 6000},
              strategy=strat_grammar, per_case_timeout=12.0),
+        Unit('machine', 'hyp', shards=2 if q else 16, examples={'quick': 200, 'thorough': 1500},
+             strategy=strat_machine if q else (lambda: seeded(lambda r: gen_machine(r, True))),
+             per_case_timeout=12.0),
+        Unit('macro', 'hyp', shards=2 if q else 16, examples={'quick': 200, 'thorough': 1500},
+             strategy=strat_macro if q else (lambda: seeded(lambda r: gen_macro(r, True))),
+             per_case_timeout=12.0),
+        Unit('bigfile', 'hyp', shards=2 if q else 16, examples={'quick': 30, 'thorough': 250},
+             strategy=strat_bigfile if q else (lambda: seeded(lambda r: gen_bigfile(r, True))),
+             per_case_timeout=30.0),
         Unit('history', 'hyp', shards=4 if q else 16, examples={'quick': 150, 'thorough': 1500},
              strategy=strat_history if q else strat_history_deep, per_case_timeout=12.0),
         Unit('expr', 'hyp', shards=2 if q else 16, examples={'quick': 320, 'thorough': 2000},
              strategy=strat_expr, per_case_timeout=12.0),
-        Unit('mutation', 'hyp', shards=2 if q else 16, examples={'quick': 400, 'thorough': 2500},
+        Unit('mutation', 'hyp', shards=2 if q else 16, examples={'quick': 300, 'thorough': 2500},
              strategy=strat_mutation, per_case_timeout=12.0),
-        Unit('soup', 'hyp', shards=2 if q else 16, examples={'quick': 240, 'thorough': 2000},
+        Unit('soup', 'hyp', shards=2 if q else 16, examples={'quick': 200, 'thorough': 2000},
              strategy=strat_soup, per_case_timeout=12.0),
-        Unit('files', 'hyp', shards=2 if q else 16, examples={'quick': 400, 'thorough': 1700},
+        Unit('files', 'hyp', shards=2 if q else 16, examples={'quick': 300, 'thorough': 1700},
              strategy=strat_file, per_case_timeout=12.0),
         Unit('specs', 'enum', shards=2 if q else 8, gen=gen_specs, exhaustive=True,
              per_case_timeout=20.0),
@@ -1100,6 +1354,26 @@ REGRESSIONS = [
     _x('ENVIRON "A="+CHR$(255)', cfg={'codepage': '932'}),
     # seeded change caught by C44, now also here: empty variable name reaching os.environ['']
     _x('ENVIRON "=b"', 'ENVIRON "="', 'N$="":ENVIRON N$+"=x"'),
+    # ---- found outside this check, fixed 0108e7d1 / b37e0de9 / ded692ca ----
+    # AttributeError in machine.out_: EGA plane registers written in text mode
+    _x('OUT &H3C5,1', 'OUT &H3CF,1', cfg={'video': 'ega'}),
+    _x('OUT &H3C5,1', 'OUT &H3CF,1'),
+    # AttributeError in mlparser._parse_indices: string variable as array index in a macro string
+    _x('DIM A(3):B$="1"', 'SCREEN 1', 'DRAW "U=A(B$);"', 'PLAY "L=A(B$);"'),
+    # struct.error in program.rebuild_line_dict: tokenised file larger than 64K
+    {'u': 'file', 'cfg': {}, 'name': 'P.BAS', 'how': ['LOAD "P.BAS"', 'PRINT FRE(0)'],
+     'big': {'fmt': 'T', 'size': 70000, 'body': '\x8f x', 'first': 10, 'step': 1, 'wellformed': True}},
+    # ---- fifth batch (machine / macro generators) ----
+    # escaped.AttributeError@machine.py:inp / :out_  (LPT status/control port on a plain stream)
+    _x('A=INP(&H379)', 'WAIT 889,4,15'),
+    _x('OUT &H37A,0'),
+    # escaped.KeyError@values.py:from_bytes  (macro-string pointer just beyond the last array)
+    _x('PLAY "MB"+"T="+LEFT$(VARPTR$(D#(1)),2)+";C2.=R(1));"'),
+    # escaped.TypeError@machine.py:_get_memory  (PEEK(1126) in a graphics mode)
+    _x('DEF SEG=0', 'SCREEN 2', 'A=PEEK(1126)'),
+    # escaped.error@program.py:update_line_dict  (lines inserted in front of a nearly full program)
+    {'u': 'file', 'cfg': {}, 'name': 'P.BAS', 'how': ['LOAD "P.BAS"', 'PRINT FRE(0)'],
+     'big': {'fmt': 'A', 'size': 70001, 'body': 'PRINT "' + 'a' * 60 + '"', 'first': 60000, 'step': 9}},
     # escaped.RecursionError@graphics.py:_draw  (DRAW substring that executes itself)
     _x('SCREEN 1', 'ZS$="XZS$;":DRAW ZS$'),
 ]
